@@ -15,6 +15,20 @@ CHECKS = {
              "exhaustive small event domain; rows and values must equal the query text evaluated by CPython. Exhaustive within the stated bounds, nothing sampled.",
         design="DESIGN.md section 3 C01", technique="explicit-state enumeration of the query grammar's derivation graph x exhaustive event domain, reference-model comparison on every execution",
         note=NOTE_EDM),
+    "C14": dict(
+        text="Every subset of the seven inject_code fields, every template-special line text in every field, and every ordered pair (thorough: triple) "
+             "of blocks from a menu of relations (distinct, identical duplicate, conflicting duplicate, reordered duplicate, unknown field, empty) at every "
+             "chain placement is rendered by the real executor; a structural region parser checks each line appears exactly once, in order, in its documented "
+             "region and nowhere else, or that ValueError is raised exactly when an independent decision says it is due.",
+        design="DESIGN.md section 3 C14", technique="exhaustive enumeration of block multisets x arrival orders x placements on the real executor, region-parser oracle",
+        note="Trusted base: the region parser's anchors in the r21/r5/r7 templates; injected lines carry unique tags. CMS backends: body_includes only (as documented)."),
+    "C15": dict(
+        text="Every arrival sequence of <= 3 (thorough <= 4) job-script blocks over 3 names x 2 script variants x all 16 depends_on subsets (incl. self loops, "
+             "cycles, missing targets, duplicates before/after their dependencies) is fed to the real generate_script_block; an independent certificate checker "
+             "decides whether an error is due and otherwise verifies once-each / contiguous / dependency-order of the emitted lines. A bounded subset goes "
+             "through the real ATLAS executor into ATestRun_eljob.py.",
+        design="DESIGN.md section 3 C15", technique="exhaustive enumeration of all block sequences within the bound (8.9e5 quick, 8.6e7 thorough) against a certificate-checking oracle",
+        note="Trusted base: the certificate checker in mc/checks/c15.py (Kahn cycle test + order verification). No sampling; name symmetry is not used."),
 }
 
 
